@@ -123,6 +123,8 @@ def gen(tier, seed):
             n += 1
     finally:
         model.TYPE_WRAP = None
+    from .runner import empty_enum_module
+    mods.append(empty_enum_module(f'm{n:04d}', 'Hash', 'core::hash::Hash', FUNCTIONS))
     return mods
 
 
